@@ -40,6 +40,7 @@ class Walker:
         self.paths = []
         self.truncated = False
         self.unroll = unroll   # a block may appear this many times on a path (2 = one loop iteration, then exit)
+        self.option_calls_as_disc = False   # is_some()/is_none()/is_ok()/is_err() on an unknown value -> discriminant atom of its role
         self.force_opaque = None   # optional hook: call terminator -> name; treated as an opaque boolean even if it is a comparison call
 
     # --- symbolic values
@@ -225,12 +226,21 @@ class Walker:
                     env2[dest] = self.cmp_atom(sym, t["args"][0], t["args"][1])
                     name = cn
                     break
-            if name is None and t["args"] and callee_def(t).rsplit("::", 1)[-1] in ("is_none", "is_some", "is_ok", "is_err"):
+            if name is None and t["args"] and callee_def(t).rsplit("::", 1)[-1] in ("is_none", "is_some", "is_ok", "is_err") and \
+                    callee_def(t).startswith(("std::option::Option", "std::result::Result", "core::option::Option", "core::result::Result")):
                 av = self.val_of_operand(t["args"][0], env)
+                nm = callee_def(t).rsplit("::", 1)[-1]
                 if av is not None and av[0] == "variant":
-                    nm = callee_def(t).rsplit("::", 1)[-1]
                     env2 = dict(env)
                     env2[dest] = ("const", av[1] == {"is_none": "None", "is_some": "Some", "is_ok": "Ok", "is_err": "Err"}[nm])
+                    name = nm
+                elif self.option_calls_as_disc:
+                    # unknown value: the same atom a `match` on it would produce (discriminant of the operand's role), so that
+                    # `if x.is_some() { x.unwrap() .. }` and `match x { Some(..) => .. }` give the same table
+                    atoms = self.sl.of_operand(t["args"][0]) | {"discr"}
+                    role = self.classify(atoms, t["args"][0])
+                    env2 = dict(env)
+                    env2[dest] = ("disc2", role, {"is_none": 0, "is_some": 1, "is_ok": 0, "is_err": 1}[nm])
                     name = nm
             if name is None and t.get("hof_passthrough"):
                 # the unfolded closure ran on this path and its result is known: find_map / and_then hand exactly that value on;
@@ -267,6 +277,8 @@ def atoms_of(e, acc):
         acc["pairs"].add((e[2], e[3]))
     elif e[0] == "opaque":
         acc["opaque"].add(e[1])
+    elif e[0] == "disc2":
+        acc["disc"].setdefault(e[1], set()).update((0, 1))
     elif e[0] in ("disc", "disc_other"):
         acc["disc"].setdefault(e[1], set())
         if e[0] == "disc":
@@ -293,7 +305,7 @@ def ev(e, asg):
         return ev(e[1], asg) or ev(e[2], asg)
     if k == "opaque":
         return asg["opaque"][e[1]]
-    if k == "disc":
+    if k in ("disc", "disc2"):
         return asg["disc"][e[1]] == e[2]
     if k == "disc_other":
         return asg["disc"][e[1]] not in e[2]
@@ -369,7 +381,7 @@ def fmt_expr(e):
         return "(%s %s %s)" % (fmt_expr(e[1]), "&&" if k == "and" else "||", fmt_expr(e[2]))
     if k == "opaque":
         return e[1]
-    if k == "disc":
+    if k in ("disc", "disc2"):
         return "%s is #%s" % (e[1], e[2])
     if k == "disc_other":
         return "%s not in %s" % (e[1], list(e[2]))
